@@ -250,6 +250,9 @@ def main(tier, seed):
         steer_ci = 3  # the example-data option set
         for m in ((1, 2) if tier == "quick" else (1, 2, 3)):
             jobs.append((("steer", steer_ci, 3, m), "steer", dict(cfgs[steer_ci], chains=3), m, {"PYTHONHASHSEED": str(20 + m)}))
+        # unsteered real-pool runs of the other proposals, judged against the cold per-chain traces too
+        jobs.append((("steer", 0, 3, 3), "steer", dict(cfgs[0], chains=3), 3, {"PYTHONHASHSEED": "41"}))
+        jobs.append((("steer", 2, 3, 3), "steer", dict(cfgs[2], chains=3), 3, {"PYTHONHASHSEED": "42"}))
         if tier == "thorough":
             jobs.append((("steer", 0, 3, 2), "steer", dict(cfgs[0], chains=3), 2, {"PYTHONHASHSEED": "31"}))
             jobs.append((("steer", steer_ci, 2, 1), "steer", dict(cfgs[steer_ci], chains=2), 1, {"PYTHONHASHSEED": "32"}))
